@@ -39,6 +39,7 @@ type vReq struct {
 	id  int
 	sz  int64
 	bad bool // Encoding.Marshal fails for this request
+	badWrite bool // the storage write of this request fails
 }
 
 type vEnc struct{}
@@ -52,6 +53,9 @@ func (vEnc) Marshal(r vReq) ([]byte, error) {
 	if r.bad {
 		return nil, vErrMarshal
 	}
+	if r.badWrite {
+		return []byte(fmt.Sprintf("%d %d failwrite", r.id, r.sz)), nil
+	}
 	return []byte(fmt.Sprintf("%d %d", r.id, r.sz)), nil
 }
 
@@ -64,6 +68,12 @@ type vFaultClient struct {
 func (c *vFaultClient) Batch(ctx context.Context, ops ...*storage.Operation) error {
 	if c.failWrites.Load() {
 		return vErrStore
+	}
+	// a parked producer whose write is to fail: its item value carries the marker
+	for _, op := range ops {
+		if op.Type == storage.Set && strings.HasSuffix(string(op.Value), " failwrite") {
+			return vErrStore
+		}
 	}
 	return c.Client.Batch(ctx, ops...)
 }
@@ -98,6 +108,7 @@ type vProd struct {
 	cancelled bool
 	enq       bool
 	selN      int64
+	faultNoted bool
 	fault     int // 0 none, 1 Encoding.Marshal fails, 2 the storage write fails (persistent queue)
 }
 
@@ -157,6 +168,8 @@ type vEng struct {
 	dropped  map[int]bool
 	ndropped int
 	popped   map[int]bool
+	doneFaults bool
+	faultyWoken int
 	fclient  *vFaultClient
 	lastSum  int64
 	lastOK   bool
@@ -739,6 +752,10 @@ func (e *vEng) stableOracle() {
 			if p.sz > e.cap {
 				over = 1
 			}
+			if e.faultyWoken > 0 && nOver == 0 && over == 0 {
+				e.oracle("producer-blocked-after-faulty-waiter-took-wakeup", fmt.Sprintf("kind=%s sz=%d cap=%d faulty_woken=%d oversized_waiters=0", e.kindName(), p.sz, e.cap, e.faultyWoken))
+				continue
+			}
 			// oversized_waiters: S1 also lets an oversized waiter consume the wake-ups of waiters that fit
 			e.oracle("producer-blocked-on-empty-queue", fmt.Sprintf("kind=%s sz=%d cap=%d oversized=%d oversized_waiters=%d", e.kindName(), p.sz, e.cap, over, nOver))
 		}
@@ -813,7 +830,7 @@ func (e *vEng) opOffer(p *vProd) {
 	if p.fault == 2 && e.fclient != nil {
 		e.fclient.failWrites.Store(true)
 	}
-	go func() { p.res <- e.q.Offer(p.ctx, vReq{id: p.id, sz: p.sz, bad: p.fault == 1}) }()
+	go func() { p.res <- e.q.Offer(p.ctx, vReq{id: p.id, sz: p.sz, bad: p.fault == 1, badWrite: p.fault == 2}) }()
 	stableOffer := e.settle(2 * time.Second)
 	if p.fault == 2 && e.fclient != nil {
 		e.fclient.failWrites.Store(false)
@@ -837,11 +854,18 @@ func (e *vEng) opOffer(p *vProd) {
 		}
 		if sizeBefore+p.sz > e.cap {
 			exp = 1
+			if e.blocking {
+				exp = 4 // parks like any other request; it will fail once it gets past the capacity loop
+			}
 		}
 		if res != exp {
 			e.oracle("refusal-rule", fmt.Sprintf("kind=%s size_before=%d sz=%d cap=%d fault=%d: got class %d want %d", e.kindName(), sizeBefore, p.sz, e.cap, p.fault, res, exp))
 		}
-		e.refusedUnchanged(p, res, sizeBefore, queuedBefore)
+		if p.returned {
+			e.refusedUnchanged(p, res, sizeBefore, queuedBefore)
+		} else {
+			e.nontriv = true
+		}
 		e.out.Stat(fmt.Sprintf("faulty_offer_%d_res_%d", p.fault, res), 1)
 		e.stableOracle()
 		return
@@ -912,6 +936,19 @@ func (e *vEng) refusedUnchanged(p *vProd, res, sizeBefore int64, queuedBefore in
 // labels for waiters that moved as a consequence of a Signal
 func (e *vEng) wakeLabels(before map[int]int64, newEnq []*vProd) {
 	seen := map[int]bool{}
+	// parked producers whose request cannot be stored: woken by a token, past the capacity loop they return their error
+	for _, id := range e.order {
+		p := e.prods[id]
+		if _, was := before[id]; was && p.fault != 0 && p.returned && !p.faultNoted {
+			if cls := vErrClass(p.ret); cls == 9 || cls == 22 {
+				p.faultNoted = true
+				e.lab(1, int64(p.id), 0, 0)
+				e.lab(3, int64(p.id), 0, cls)
+				e.faultyWoken++
+				e.out.Stat("faulty_waiter_woken", 1)
+			}
+		}
+	}
 	for _, p := range newEnq {
 		seen[p.id] = true
 		e.lab(1, int64(p.id), 0, 0)
@@ -1037,11 +1074,25 @@ func (e *vEng) opDone(id int, cls int64) {
 	delete(e.dones, id)
 	err := vErrOf(cls)
 	e.doneErr[id] = err
+	// persistent queue: the storage may fail while the finished item is deleted (itemDispatchingFinish).  onDone
+	// releases the size and signals BEFORE it touches the storage and only logs such errors, so the volatile state
+	// the model describes must evolve exactly as without the fault (the stale stored copy is C01's subject).
+	storeFails := e.kind == 1 && e.fclient != nil && !e.stopped && e.doneFaults && id%5 == 2
+	if storeFails {
+		e.fclient.failWrites.Store(true)
+		e.out.Stat("ondone_storage_fails", 1)
+	}
 	fin := make(chan struct{})
 	go func() { d.OnDone(err); close(fin) }()
 	select {
 	case <-fin:
+		if storeFails {
+			e.fclient.failWrites.Store(false)
+		}
 	case <-time.After(2 * time.Second):
+		if storeFails {
+			e.fclient.failWrites.Store(false)
+		}
 		e.lab(7, int64(id), cls, 20)
 		e.dead = true
 		vDeadCount++
@@ -1196,6 +1247,7 @@ func vScript(out *vOut, rng *vRand, kind int, blocking, wfr bool) {
 	capacity := int64(1 + rng.Intn(8))
 	reqSizer := rng.Intn(5) == 0
 	e := vNewEng(out, kind, capacity, blocking, wfr, reqSizer)
+	e.doneFaults = kind == 1 && rng.Intn(2) == 0
 	nops := 10 + rng.Intn(50)
 	next := 0
 	// a persistent queue with block_on_overflow never returns from an oversized Offer (S1): keep such cases rare
@@ -1352,6 +1404,11 @@ func TestVerifC02(t *testing.T) {
 	for c := 0; c < n6 && vDeadCount < 40; c++ {
 		vFaultBlocked(out, rng, c)
 	}
+	// (7) parked producers whose request cannot be stored (finding C02-FAULTY-WAITER-STEALS-WAKEUP)
+	n7 := vBudget(40, 10)
+	for c := 0; c < n7 && vDeadCount < 40; c++ {
+		vFaultyWaiter(out, rng, c)
+	}
 }
 
 // ---- consumers parked in Read, enqueues back to back ---------------------------------------------------
@@ -1432,6 +1489,47 @@ func vForcedEnq(out *vOut, rng *vRand, c int) {
 			e.opDone(infl[0], 0)
 		} else if e.queued() > 0 {
 			e.opRead()
+		} else {
+			break
+		}
+	}
+	e.finish()
+	e.emit()
+}
+
+// ---- persistent queue, block_on_overflow: parked producers whose request cannot be stored -------------------
+// one request fills the queue; nf producers whose Marshal / storage write will fail park behind it, then a producer
+// whose request fits.  Draining the queue issues exactly two Signals (the size reset in Read, OnDone).
+func vFaultyWaiter(out *vOut, rng *vRand, c int) {
+	capacity := int64(2 + rng.Intn(3))
+	e := vNewEng(out, 1, capacity, true, false, false)
+	e.nontriv = true
+	e.opOffer(e.newProd(0, capacity))
+	nf := 1 + c%2
+	next := 1
+	goodFirst := rng.Intn(4) == 0
+	if goodFirst {
+		e.opOffer(e.newProd(next, 1))
+		next++
+	}
+	for i := 0; i < nf; i++ {
+		p := e.newProd(next, 1)
+		next++
+		p.fault = 1 + rng.Intn(2)
+		e.opOffer(p)
+	}
+	if !goodFirst {
+		e.opOffer(e.newProd(next, 1))
+		next++
+	}
+	e.opRead()
+	e.opDone(0, 0)
+	out.Stat(fmt.Sprintf("faulty_waiter_case_nf%d_goodfirst_%v", nf, goodFirst), 1)
+	for guard := 0; guard < 20 && !e.dead; guard++ {
+		if e.queued() > 0 {
+			e.opRead()
+		} else if infl := e.inflightIDs(); len(infl) > 0 {
+			e.opDone(infl[0], 0)
 		} else {
 			break
 		}
